@@ -429,6 +429,11 @@ private:
       if (queues_and_events_empty)
       {
         // we are done, all queues are now empty
+
+        // When we do not wait for the queues, the thread contexts have not been reloaded above: a
+        // thread that started logging after the last poll would be missing from the final report
+        // of dropped messages below
+        _update_active_thread_contexts_cache();
         _check_failure_counter(_options.error_notifier);
         _flush_and_run_active_sinks(false, std::chrono::milliseconds{0});
         break;
